@@ -331,7 +331,9 @@ def run(chk):
     pol = chk.repo.mod("backend.polars")
     pf = pol.func("compile_col_expr")
     pol_ok = False
-    for c in calls_in(pf):
+    from ..source import reachable_functions as _rf
+
+    for c in [c_ for g_ in _rf(pol, pf) for c_ in calls_in(g_)]:
         if isinstance(c.func, ast.Attribute) and c.func.attr == "cast" and c.args and "target_type.to_polars()" in norm(c.args[0]):
             s = kwarg(c, "strict")
             pol_ok = s is not None and norm(s).endswith(".strict")
